@@ -81,6 +81,8 @@ type evState struct {
 	stack bool
 	ctx   string
 	fresh bool // a sub-event created by Dict()/Context.Object()/Array.Object(): no logger behind it
+	// discarded: a hook called Discard(); Func callbacks (and the Func-based getctx op) no longer run
+	discarded bool
 }
 
 func (m Model) levelField() (string, bool) {
@@ -213,8 +215,11 @@ func (m Model) dur(d int64) Exp {
 func (m Model) iface(v interface{}) Exp {
 	var b []byte
 	var err error
-	if m.Set.IfaceMarshal == "stdjson" {
+	if m.Set.IfaceMarshal == "stdjson" || m.Set.IfaceMarshal == "wrap" {
 		b, err = json.Marshal(v)
+		if err == nil && m.Set.IfaceMarshal == "wrap" && v != nil {
+			b = append(append([]byte(`{"w":`), b...), '}')
+		}
 	} else {
 		var buf bytes.Buffer
 		enc := json.NewEncoder(&buf)
@@ -455,6 +460,9 @@ func (m Model) opsFieldsCx(ops []Op, where string, st *evState, cx *ctxEffects) 
 				out = append(out, ExpField{m.callerField(), Exp{Kind: "anystr"}})
 			}
 		case "getctx":
+			if st.discarded {
+				continue // Event.Func does nothing on a discarded event
+			}
 			if st.fresh && !m.StrictCtx && st.ctx == "" {
 				out = append(out, ExpField{k, Exp{Kind: "anystr"}})
 			} else {
@@ -497,7 +505,18 @@ func (m Model) opsFieldsCx(ops []Op, where string, st *evState, cx *ctxEffects) 
 				}
 			}
 		case "func":
+			if st.discarded {
+				continue // Event.Func does nothing on a discarded event
+			}
 			out = append(out, m.opsFields(v.Ops, "event", st)...)
+		case "iface", "any":
+			if v.If != nil && v.If.K == "objmarshaler" && where == "event" {
+				// Event.Interface hands a LogObjectMarshaler to Event.Object: it runs on the event
+				// itself and sees (and may change) its stack flag and Go context
+				out = append(out, ExpField{k, Exp{Kind: "obj", O: m.opsFields(v.If.Ops, "event", st)}})
+			} else {
+				out = append(out, ExpField{k, m.scalar(v, st)})
+			}
 		case "fieldsmap":
 			ops2 := append([]Op{}, v.Ops...)
 			sort.SliceStable(ops2, func(i, j int) bool { return string(ops2[i].K) < string(ops2[j].K) })
@@ -684,6 +703,8 @@ func (m Model) Event(l *LoggerModel, ev EventSpec) ExpEvent {
 		msg = ""
 	case "msgf2":
 		msg += "7"
+	case "msgf0":
+		msg = fmt.Sprintf(msg) // documented: "formatted msg"; fmt is the reference
 	}
 	cur := lvl
 	discarded := false
@@ -705,6 +726,7 @@ func (m Model) Event(l *LoggerModel, ev EventSpec) ExpEvent {
 				f = append(f, ExpField{ValidText(h.Spec.K), strS(st.ctx)})
 			case "discard":
 				discarded = true
+				st.discarded = true
 				cur = 7
 			}
 		}
